@@ -728,7 +728,7 @@ func TestVerifC07Codec(t *testing.T) {
 	}
 	// ---- random entries
 	rnd := vfNewRand(out.Seed)
-	n := out.Scale(400, 6000)
+	n := out.Scale(400, 2000)
 	for i := 0; i < n; i++ {
 		r := rnd.Fork(uint64(i))
 		e, cls := ccEntry(r)
